@@ -38,6 +38,12 @@ CLAIMED["C12"] = ("Every implemented (service, opcode) of RRS/LP/TMP/RCP: the PD
                   "checksum octet (all in-range field values), then framing (service byte, opcode, length field, independent checksum, terminator, len()), parse -> serialise "
                   "equality, field equality, flags forced both ways, nesting in HRNP (length, ones-complement checksum, re-parse) and in HSTRP with 0..2 options. GPS text "
                   "fields are concrete witnesses, not solver-decided.", "6/C12")
+CLAIMED["C16"] = ("TMS (3 PDU types) and ARS (5 PDU types) built through the constructors with symbolic addresses, sequence numbers, message octets, identifier characters, "
+                  "refresh times and header flags: leading length == bytes that follow, parse gives equal fields, parse -> serialise gives equal bytes.", "6/C16")
+CLAIMED["C13"] = ("72-octet frames with symbolic sequence number, colour nibble, both ids, all reserved octets, source port and all 264 payload bits (centre not a SYNC pattern), "
+                  "type fields split over their defined codes: the raw decoder and the GENERATED kaitai parser (run on the symbolic frame through a stream stand-in) give equal "
+                  "objects and bursts, ids/colour equal the encoded 24-bit/4-bit values, and as_ipsc_bytes of either reproduces the 72 octets. quick: sync, wake-up and two voice "
+                  "slot types; data slot types with library-assembled payloads are exercised under C01/C07.", "6/C13")
 NOT_YET = {}
 props = [json.loads(l) for l in open(os.path.join(V, "properties.jsonl"))]
 checks = []
